@@ -190,3 +190,5 @@ for _p, _gens in {
     "C12": [_S.const_field_frames], "C20": [_S.connect_site_frames],
 }.items():
     PROPS[_p]["structural"] = list(PROPS[_p].get("structural", [])) + _gens
+for _p in PROPS:
+    PROPS[_p]["structural"] = list(PROPS[_p].get("structural", [])) + [_S.decorator_frames]
